@@ -36,6 +36,7 @@ type iterInfo struct {
 type retInfo struct {
 	st   *State
 	vals []string
+	blk  *ssa.BasicBlock // block of the return (for resolving reassigned locals in postconditions)
 }
 
 type Exec struct {
@@ -568,7 +569,7 @@ func (x *Exec) execBlock(b *ssa.BasicBlock, st *State, within *loopInfo) {
 			for _, r := range t.Results {
 				vs = append(vs, x.value(r))
 			}
-			x.rets = append(x.rets, retInfo{st, vs})
+			x.rets = append(x.rets, retInfo{st, vs, b})
 			return
 		case *ssa.Panic:
 			x.implicit(st, in, "panic", "false", "explicit panic")
